@@ -71,6 +71,37 @@ def make_case(seed):
                 d = rng.uniform(1.05, 1.6) * a / CD
                 t = rng.uniform(0, 2 * math.pi)
                 srcs.append(["ok", x + d * math.cos(t), y + d * math.sin(t), beam, beam, 0.0, rng.uniform(5, 40), gid])
+    if not conf["many"]:
+        # sources close to an image edge (partly outside the image)
+        for _ in range(rng.choice([0, 0, 1, 2])):
+            for _try in range(100):
+                e = rng.uniform(1.2, 8.0)
+                ea = beam * rng.choice([1.0, 1.5, 2.2])
+                side = rng.choice("LBRT")
+                x = e if side == "L" else (W - 1 - e if side == "R" else rng.uniform(14, W - 14))
+                y = e if side == "B" else (H - 1 - e if side == "T" else rng.uniform(14, H - 14))
+                if all(math.hypot(x - q[1], y - q[2]) >= 3.5 * (beam + q[3]) / CD + 2 for q in srcs):
+                    srcs.append(["ok", x, y, ea, beam, rng.uniform(-89, 90), rng.uniform(8, 50), len(srcs) + 1])
+                    break
+        # a blend whose FIRST catalogued member cannot be fitted (off the image or on a blank pixel);
+        # that member is not rendered, so the image is still the exact model of the accepted sources
+        if rng.random() < 0.4:
+            gid = len(srcs) + 1
+            if rng.random() < 0.5:
+                for _try in range(100):
+                    y = rng.uniform(16, H - 16)
+                    if all(math.hypot(5.0 - q[1], y - q[2]) >= 3.5 * (beam + q[3]) / CD + 4 for q in srcs):
+                        srcs.append(["off-quiet", -4.0, y + 0.3, beam, beam, 0.0, 10.0, gid])
+                        srcs.append(["ok", 5.0 + rng.uniform(0, 2), y, beam, beam, 0.0, rng.uniform(10, 40), gid])
+                        break
+            else:
+                for _try in range(100):
+                    x, y = rng.uniform(20, W - 20), rng.uniform(20, H - 20)
+                    if all(math.hypot(x - q[1], y - q[2]) >= 3.5 * (beam + q[3]) / CD + 8 for q in srcs):
+                        d = 1.5 * beam / CD
+                        srcs.append(["blank-quiet", x + d, y + 0.2, beam, beam, 0.0, 10.0, gid])
+                        srcs.append(["ok", x, y, beam, beam, 0.0, rng.uniform(10, 40), gid])
+                        break
     # rejected rows
     for _ in range(rng.choice([0, 1, 2])):
         srcs.append(["off", rng.choice([-15.0, W + 12.0]), rng.uniform(10, H - 10), beam, beam, 0.0, 10.0])
@@ -91,6 +122,11 @@ def make_case(seed):
             if abs(f - 0.5) < 0.02:
                 s[k] += 0.05
         out.append(s)
+    # keep the creation order inside a group (source numbers), shuffle the groups' rows afterwards
+    order = {}
+    for s in out:
+        s.append(order.get(s[7], 0))
+        order[s[7]] = order.get(s[7], 0) + 1
     rng.shuffle(out)
     return conf, out
 
@@ -106,16 +142,15 @@ def build(seed, workdir):
     # blank block for 'blank' sources
     blanks = []
     nin = {}
-    for k, (kind, x, y, a, b, pa, amp, gid) in enumerate(srcs):
+    for k, (kind, x, y, a, b, pa, amp, gid, snum) in enumerate(srcs):
         ra, dec = [float(v) for v in w.all_pix2world([[x, y]], 0)[0]]
         px = synth.sky_ellipse_to_pix(w, ra, dec, a / 3600.0, b / 3600.0, pa)
-        if kind != "off":
+        if kind in ("ok", "blank"):
             comps.append((amp, px[0], px[1], px[2], px[3], px[4]))
-        if kind == "blank":
+        if kind in ("blank", "blank-quiet"):
             blanks.append((int(round(y)), int(round(x))))
         s = ComponentSource()
-        s.island, s.source = gid, nin.get(gid, 0)
-        nin[gid] = nin.get(gid, 0) + 1
+        s.island, s.source = gid, snum
         s.ra, s.dec, s.a, s.b, s.pa, s.peak_flux = ra, dec, a, b, pa, amp
         s.int_flux = amp * a * b / conf["beam"] ** 2
         s.err_ra, s.err_dec = 1e-5 * (k + 1), 2e-5 * (k + 1)
@@ -126,7 +161,7 @@ def build(seed, workdir):
         if conf["psfcols"]:
             s.psf_a, s.psf_b, s.psf_pa = conf["beam"], conf["beam"], 0.0
         cat.append(s)
-        meta.append({"uuid": s.uuid, "status": kind, "x": px[0], "y": px[1], "amp": amp, "a": a, "b": b, "pa": pa})
+        meta.append({"uuid": s.uuid, "status": kind.split("-")[0], "x": px[0], "y": px[1], "amp": amp, "a": a, "b": b, "pa": pa})
     img = synth.render(shape, comps) if comps else np.zeros(shape)
     for (r, c) in blanks:
         img[max(0, r - 1):r + 2, max(0, c - 1):c + 2] = np.nan
